@@ -165,9 +165,9 @@ func cmdVC(args []string) {
 			fmt.Printf("       clause: %s\n", r.O.Clause)
 		}
 		if !r.OK && r.R.Status == "sat" && !r.O.Cover {
-			vals, order, _ := getModel(dir, r.VC, r.O, r.R.Solver, *timeout)
-			for _, k := range order {
-				fmt.Printf("         %s = %s\n", k, vals[k])
+			m, _ := modelValues(dir, r.VC, r.O, r.R.Solver, *timeout)
+			for _, l := range renderModel(m) {
+				fmt.Printf("         %s\n", l)
 			}
 		}
 	}
